@@ -24,6 +24,9 @@ import Martian.Invocation
 import Proofs.Invocation
 import Martian.InvocationStr
 import Proofs.InvocationStr
+import Martian.JsonBytes
+import Proofs.JsonBytes
+import Proofs.JsonBytesFilter
 import Gen.Facts
 
 namespace Props.C16
@@ -560,5 +563,51 @@ example : jsonDecodeString [0x22, 0x5C, 0x78, 0x34, 0x31, 0x22] = none
     ∧ jsonDecodeString [0x22, 0x01, 0x22] = none := by decide
 
 end StringLeaf
+
+
+/-! ## invocation bytes: the raw-message writers
+
+Arguments travel between stages as `json.RawMessage` and are written into `_args`, `_outs`,
+`_invocation` data by concatenation: `LazyArgumentMap.encodeJSON` / `MarshalerMap.encodeJSON`
+(`{`, keys in `sort.Strings` order written by `json.Marshal`, `:`, the raw value, `,`, `}`),
+`marshallerArray.encodeJSON`, and `MapExp` / `ResolvedBindingMap` `encodeJSON` (keys by
+`quoteString`).  Models: `JsonBytes.encodeRawMap html`, `encodeRawArr`; `Den p j` = the bytes `p`
+are read (by the byte-level model of `encoding/json`'s value grammar, `JsonBytes.parseV`) as the
+tree `j`. -/
+section InvocationBytes
+open Martian.JsonBytes
+open Martian.ShellQuote (validUtf8)
+
+/-- a map of raw messages, each of which denotes a tree, written with sorted keys – by either key
+writer – denotes the object of those trees under the same keys in sorted order: nothing is lost
+or altered by the splicing -/
+theorem invocation_map_bytes (html : Bool) (m : List (Martian.Lexer.Bytes × Martian.Lexer.Bytes))
+    (tree : Martian.Lexer.Bytes × Martian.Lexer.Bytes → Martian.Json.J)
+    (h : ∀ kv, kv ∈ m → validUtf8 kv.1 = true ∧ Den kv.2 (tree kv)) :
+    Den (encodeRawMap html m) (.obj ((sortByKey m).map fun kv => (kv.1, tree kv))) :=
+  den_encodeRawMap html m tree h
+
+/-- … and a slice of raw messages denotes the array of their trees -/
+theorem invocation_array_bytes (xs : List Martian.Lexer.Bytes) (tree : Martian.Lexer.Bytes → Martian.Json.J)
+    (h : ∀ p, p ∈ xs → Den p (tree p)) : Den (encodeRawArr xs) (.arr (xs.map tree)) :=
+  den_encodeRawArr xs tree h
+
+/-- the written bytes are a whole JSON document for that tree (`json.Unmarshal` succeeds on them) -/
+theorem invocation_map_parses (html : Bool) (m : List (Martian.Lexer.Bytes × Martian.Lexer.Bytes))
+    (tree : Martian.Lexer.Bytes × Martian.Lexer.Bytes → Martian.Json.J)
+    (h : ∀ kv, kv ∈ m → validUtf8 kv.1 = true ∧ Den kv.2 (tree kv)) :
+    parseTop (encodeRawMap html m) = some (.obj ((sortByKey m).map fun kv => (kv.1, tree kv))) :=
+  parseTop_of_den (den_encodeRawMap html m tree h)
+
+/-- non-vacuity: `{"b":[1, 2],"a<":null}` as `LazyArgumentMap` writes it: keys sorted, `<` escaped
+by `json.Marshal`, the raw value `[1, 2]` spliced with its white space -/
+example : encodeRawMap true [([0x62], [0x5B, 0x31, 0x2C, 0x20, 0x32, 0x5D]), ([0x61, 0x3C], [0x6E, 0x75, 0x6C, 0x6C])]
+    = [0x7B, 0x22, 0x61, 0x5C, 0x75, 0x30, 0x30, 0x33, 0x63, 0x22, 0x3A, 0x6E, 0x75, 0x6C, 0x6C, 0x2C,
+       0x22, 0x62, 0x22, 0x3A, 0x5B, 0x31, 0x2C, 0x20, 0x32, 0x5D, 0x7D] := by decide +kernel
+example : (parseTop (encodeRawMap true [([0x62], [0x5B, 0x31, 0x2C, 0x20, 0x32, 0x5D]), ([0x61, 0x3C], [0x6E, 0x75, 0x6C, 0x6C])])).map printJ
+    = some (printJ (.obj [([0x61, 0x3C], .null), ([0x62], .arr [.num (.int 1), .num (.int 2)])])) := by
+  decide +kernel
+
+end InvocationBytes
 
 end Props.C16
